@@ -1,6 +1,9 @@
 import Proofs.E2E.Basic
 import Proofs.C01.CapstoneCofactor
 import Proofs.C03.BatchThm
+import Proofs.C03.BatchMore
+import Proofs.C03.Equation
+import Proofs.C03.Totality
 /-
 End-to-end corollaries for C03 (BIP340): `Props/C03.lean`'s theorems with `L := lawful_ec K h34`.
 
@@ -9,9 +12,11 @@ What transfers to the raw pairs of `Btc.EC.ops C`, and what is stated over `opsS
   agree: `sign (opsSub K) = sign (Btc.EC.ops C)` as an EQUATION (`sign_opsSub`);
 * what `verify_` accepts over `opsSub K` it accepts over `Btc.EC.ops C` (`verify_opsSub_imp`), so T1 (completeness) is a
   statement about `Btc.EC.ops C` alone;
-* T2 (exactness) and the batch theorems T3/T4 are stated over `opsSub K`, i.e. `Btc.EC.ops C` applied to the underlying
-  pairs with `lift_x` answering only inside the `n`-torsion: on a curve with a cofactor the unrestricted `lift_x` does
-  leave the prime-order subgroup, and "verify ⇔ BIP340's equation in the group of order n" is then not true of it.
+* T2 (exactness) and the batch theorems T3/T4 are first stated over `opsSub K` (`…_sub`), i.e. `Btc.EC.ops C` applied to the
+  underlying pairs with `lift_x` answering only inside the `n`-torsion, then transferred to the raw `Btc.EC.ops C` under
+  cofactor one (`…_cofactor_one`, section Transfer): on a curve with a cofactor the unrestricted `lift_x` does leave the
+  prime-order subgroup, and "verify ⇔ BIP340's equation in the group of order n" is then not true of it.  For secp256k1
+  cofactor one is PROVED (`Btc.E2E.secpCofactorOne`): `Proofs/C03/Secp.lean`.
 -/
 open WeierstrassCurve
 
@@ -123,6 +128,27 @@ theorem sign_verifies_sub (K : CurveOk p C) (h34 : p % 4 = 3) (prm : Params) (fu
   have L := lawful_ec K h34
   rw [← sign_opsSub K h34] at h
   exact (verify_eq_true_iff prm _ _ _).2 (Schnorr.sign_verifies L prm L.ycongr fuel msg q aux sg h)
+
+theorem nonceRaw_opsSub (K : CurveOk p C) (prm : Params) (fuel : ℕ) (msg : Bytes) (q xQ : ℤ) (aux : Bytes) :
+    nonceRaw (opsSub K) prm fuel msg q xQ aux = nonceRaw (EC.ops C) prm fuel msg q xQ aux := by
+  unfold nonceRaw
+  simp only [hashToScalar_opsSub]
+
+/-- **closed form of `sign_` over `Btc.EC.ops C`** for a key in `1..n-1` and an aux of the hash's size: the only
+refusals left are the exhausted retry budget of the nonce loop and a zero challenge -/
+theorem sign_eq_ec (K : CurveOk p C) (h34 : p % 4 = 3) (prm : Params) (fuel : ℕ) (msg : Bytes) (q : ℤ) (aux : Bytes)
+    (hq : 0 < q ∧ q < C.n) (haux : aux.length = prm.hfLen) :
+    sign (EC.ops C) prm fuel msg q aux =
+      match nonceRaw (EC.ops C) prm fuel msg (evenScalar (EC.ops C) q) ((EC.ops C).x ((EC.ops C).mul q C.G)) aux with
+      | .error e => .error e
+      | .ok k0 =>
+        if challengeInt (EC.ops C) prm msg ((EC.ops C).x ((EC.ops C).mul q C.G)) ((EC.ops C).x ((EC.ops C).mul k0 C.G)) = 0
+        then .error .runtime
+        else .ok ⟨(EC.ops C).x ((EC.ops C).mul k0 C.G),
+          (evenScalar (EC.ops C) k0 + challengeInt (EC.ops C) prm msg ((EC.ops C).x ((EC.ops C).mul q C.G))
+            ((EC.ops C).x ((EC.ops C).mul k0 C.G)) * evenScalar (EC.ops C) q) % C.n⟩ := by
+  rw [← sign_opsSub K h34, Schnorr.sign_eq (lawful_ec K h34) prm fuel msg q aux hq haux, nonceRaw_opsSub]
+  rfl
 
 /-- **C03-T2 over `opsSub K`**: `verify_` answers true exactly when BIP340's Verify does -/
 theorem verify_iff_sub (K : CurveOk p C) (h34 : p % 4 = 3) (prm : Params) (msg : Bytes) (xQ : ℤ) (sg : Sig) :
@@ -342,6 +368,59 @@ theorem batch_at_most_one_coeff_cofactor_one (h34 : p % 4 = 3) (prm : Params) (c
   exact Schnorr.batch_at_most_one_coeff (lawful_ec K h34) prm coef coef' it0 it1 rest j bad hj1 hj hbad hagree
     ((batchVerify_eq_true_iff prm coef _).1 h1) ((batchVerify_eq_true_iff prm coef' _).1 h2)
 
+/-- **C03-T2, group-level reading, on the raw pairs of `Btc.EC.ops C`** (cofactor one): `verify_` is true exactly when
+`r < p`, `s < n`, `r` and `x_Q` lift to points `R`, `P` of the curve, `e ≠ 0`, and BIP340's equation `s•G = R + e•P`
+holds in the group of points of the curve (Mathlib's `WeierstrassCurve.Affine.Point`) -/
+theorem verify_iff_equation_cofactor_one (h34 : p % 4 = 3) (prm : Params) (msg : Bytes) (xQ : ℤ) (sg : Sig) :
+    Schnorr.verify (EC.ops C) prm msg xQ sg = true ↔
+      0 ≤ sg.r ∧ sg.r < C.p ∧ 0 ≤ sg.s ∧ sg.s < C.n ∧
+      ∃ R P : Point, (EC.ops C).liftX sg.r = some R ∧ (EC.ops C).liftX xQ = some P ∧
+        challengeInt (EC.ops C) prm msg xQ sg.r ≠ 0 ∧
+        sg.s • absA p C.toCurveGroup C.G =
+          absA p C.toCurveGroup R + challengeInt (EC.ops C) prm msg xQ sg.r • absA p C.toCurveGroup P := by
+  rw [← verify_eq K hL, Schnorr.verify_iff_equation (lawful_ec K h34)]
+  constructor
+  · rintro ⟨h1, h2, h3, h4, R, P, hR, hP, hc, heq⟩
+    exact ⟨h1, h2, h3, h4, R.1, P.1, opsSub_liftX K hR, opsSub_liftX K hP, hc, heq⟩
+  · rintro ⟨h1, h2, h3, h4, R, P, hR, hP, hc, heq⟩
+    have hr := hL sg.r
+    rw [hR] at hr
+    obtain ⟨R', hR', rfl⟩ := Option.map_eq_some_iff.mp hr
+    have hq := hL xQ
+    rw [hP] at hq
+    obtain ⟨P', hP', rfl⟩ := Option.map_eq_some_iff.mp hq
+    exact ⟨h1, h2, h3, h4, R', P', hR', hP', hc, heq⟩
+
+/-- at most one failing member ⇒ the executed batch verdict is the conjunction of the executed single verdicts -/
+theorem batch_eq_all_of_at_most_one_bad_cofactor_one (h34 : p % 4 = 3) (prm : Params) (coef : ℕ → ℤ)
+    (hd : Drawn (EC.ops C) coef) (items : List Item) (hne : items ≠ [])
+    (hone : ∀ (j k : ℕ) (a b : Item), items[j]? = some a → items[k]? = some b →
+      Schnorr.verify (EC.ops C) prm a.msg a.xQ a.sg = false → Schnorr.verify (EC.ops C) prm b.msg b.xQ b.sg = false →
+      j = k) :
+    batchVerify (EC.ops C) prm coef items = true ↔
+      ∀ it ∈ items, Schnorr.verify (EC.ops C) prm it.msg it.xQ it.sg = true := by
+  rw [← batchVerify_eq K hL]
+  have h := Schnorr.batch_eq_all_of_at_most_one_bad (lawful_ec K h34) prm coef hd items hne
+    (fun j k a b ha hb hva hvb => hone j k a b ha hb (by rw [← verify_eq K hL]; exact hva)
+      (by rw [← verify_eq K hL]; exact hvb))
+  rw [h]
+  constructor
+  · intro hall it hit; rw [← verify_eq K hL]; exact hall it hit
+  · intro hall it hit; rw [verify_eq K hL]; exact hall it hit
+
+/-- a failing member `j ≥ 1`: at most one of the values `1..n-1` of `aⱼ` lets the executed batch pass -/
+theorem batch_passing_coefficient_unique_cofactor_one (h34 : p % 4 = 3) (prm : Params) (coef : ℕ → ℤ)
+    (it0 it1 : Item) (rest : List Item) (j : ℕ) (bad : Item) (hj1 : 1 ≤ j)
+    (hj : (it0 :: it1 :: rest)[j]? = some bad)
+    (hbad : Schnorr.verify (EC.ops C) prm bad.msg bad.xQ bad.sg = false) (a a' : ℤ)
+    (ha : 0 < a ∧ a < C.n) (ha' : 0 < a' ∧ a' < C.n)
+    (h1 : batchVerify (EC.ops C) prm (Function.update coef j a) (it0 :: it1 :: rest) = true)
+    (h2 : batchVerify (EC.ops C) prm (Function.update coef j a') (it0 :: it1 :: rest) = true) : a = a' := by
+  rw [← batchVerify_eq K hL] at h1 h2
+  rw [← verify_eq K hL] at hbad
+  exact Schnorr.batch_passing_coefficient_unique (lawful_ec K h34) prm coef it0 it1 rest j bad hj1 hj hbad a a' ha ha'
+    h1 h2
+
 end Transfer
 
 /-- secp256k1's discriminant `−16·27·7²` is not zero in its field -/
@@ -358,30 +437,20 @@ theorem secp_delta_ne_zero_c03 : (curveOf secp256k1_p secp256k1.toCurveGroup).to
   have hp : 21168 < secp256k1_p := by decide +kernel
   omega
 
-/-- under the ONE remaining assumption about secp256k1, `Btc.E2E.SecpCofactorOne` (every point of the curve has order
-    dividing `n`; not proved: Mathlib has no point count / Hasse bound), the restricted `lift_x` is the executed one -/
+/-- under `Btc.E2E.SecpCofactorOne` (every point of the curve has order dividing `n`; PROVED in
+    `Proofs/E2E/CofactorOne.lean`, applied in `Proofs/C03/Secp.lean`) the restricted `lift_x` is the executed one -/
 theorem secp_liftAgree03 (hcof : SecpCofactorOne) : LiftAgree secpOk :=
   @liftAgree_of_cofactor_one secp256k1_p ⟨secp256k1_p_prime⟩ secp256k1 secpOk secp256k1_h34 hcof secp_delta_ne_zero_c03
 
 /-! ## secp256k1, T1 only: no assumption about the curve (primality of `p`, `n`: Pratt certificates).
-T2–T4 on secp256k1 are the `_cofactor_one` theorems above at `secpOk` with `secp_liftAgree03 hcof`
-(`hcof : SecpCofactorOne`): see `Props/C03.lean`. -/
+T2–T4 on secp256k1 are the `_cofactor_one` theorems above at `secpOk` with `secp_liftAgree03 secpCofactorOne`:
+`Proofs/C03/Secp.lean`, re-exported hypothesis-free by `Props/C03.lean`. -/
 
 theorem sign_verifies_secp256k1 (prm : Params)
     (fuel : ℕ) (msg : Bytes) (q : ℤ) (aux : Bytes) (sg : Sig)
     (h : sign (EC.ops secp256k1) prm fuel msg q aux = .ok sg) :
     Schnorr.verify (EC.ops secp256k1) prm msg ((EC.ops secp256k1).x ((EC.ops secp256k1).mul q secp256k1.G)) sg = true :=
   @sign_verifies_ec secp256k1_p ⟨secp256k1_p_prime⟩ secp256k1 secpOk secp256k1_h34 prm fuel msg q aux sg h
-
-theorem sign_secpOps (prm : Params)
-    (fuel : ℕ) (msg : Bytes) (q : ℤ) (aux : Bytes) :
-    sign secpOps prm fuel msg q aux = sign (EC.ops secp256k1) prm fuel msg q aux :=
-  @sign_opsSub secp256k1_p ⟨secp256k1_p_prime⟩ secp256k1 secpOk secp256k1_h34 prm fuel msg q aux
-
-theorem verify_secpOps_imp (prm : Params)
-    (msg : Bytes) (xQ : ℤ) (sg : Sig) (h : Schnorr.verify secpOps prm msg xQ sg = true) :
-    Schnorr.verify (EC.ops secp256k1) prm msg xQ sg = true :=
-  @verify_opsSub_imp secp256k1_p ⟨secp256k1_p_prime⟩ secp256k1 secpOk prm msg xQ sg h
 
 /-! ## the toy curve: actual runs, no hypothesis at all -/
 
@@ -398,18 +467,6 @@ theorem toy_x4 : (EC.ops toyC).x ((EC.ops toyC).mul 4 toyC.G) = 21 := by decide 
 theorem toy_schnorr_verifies : Schnorr.verify (EC.ops toyC) toyPrm [1, 2] 35 ⟨2, 19⟩ = true := by
   have := sign_verifies_ec toyOk (by decide) toyPrm 5 [1, 2] 3 [0] _ toy_schnorr_sign1
   rwa [toy_x3] at this
-
-/-- a two-member batch of honest signatures passes for every coefficient function -/
-theorem toy_batch (coef : ℕ → ℤ) :
-    batchVerify (opsSub toyOk) toyPrm coef [⟨[1, 2], 35, ⟨2, 19⟩⟩, ⟨[9], 21, ⟨29, 5⟩⟩] = true := by
-  apply batch_complete_sub toyOk (by decide) toyPrm coef _ (by simp)
-  intro it hit
-  simp only [List.mem_cons, List.not_mem_nil, or_false] at hit
-  rcases hit with rfl | rfl
-  · have := sign_verifies_sub toyOk (by decide) toyPrm 5 [1, 2] 3 [0] _ toy_schnorr_sign1
-    rwa [toy_x3] at this
-  · have := sign_verifies_sub toyOk (by decide) toyPrm 5 [9] 4 [7] _ toy_schnorr_sign2
-    rwa [toy_x4] at this
 
 /-! ### fully discharged `_cofactor_one` instances: `hcof` is PROVED for the toy curve (`Btc.C01.Toy.toy_hcof`), so T2–T4
 about the raw, executed `Btc.EC.ops toyC` hold with no hypothesis left -/
@@ -447,7 +504,7 @@ theorem toy_batch_bad_raw (coef : ℕ → ℤ) (h : 0 < coef 1 ∧ coef 1 < 31) 
     | 1, _, hne => exact absurd rfl hne
     | k + 2, hk, _ => simp at hk
   · show ¬ (31 : ℤ) ∣ coefAt coef 1
-    simp only [coefAt]
+    rw [coefAt_eq]
     intro hd
     have := Int.le_of_dvd h.1 (by simpa using hd)
     omega
